@@ -102,6 +102,50 @@ Definition uri_split_tail (q : bytes) (len : Z) (sch : Z) (host : bytes) (port :
     fin path query
   else UOk (UErr (-1)).
 
+(* the Uri-Host part; p points behind "://".  inr rc = error; inl (q, len, host, port, unix) *)
+Definition uri_host_stage (p : bytes) (len dport : Z)
+  : uri_res (bytes * Z * bytes * Z * bool + Z) :=
+  ulet isv6 <- (if len =? 0 then UOk false else ulet c <- uri_rd p 0 ;; UOk (c =? 91)) ;;
+  if (isv6 : bool) then
+    (* q starts at '[' *)
+    ulet r <- uri_scan (fun c => c =? 93) p len 0 ;;
+    let '(q, len1, n) := r in
+    if (len1 =? 0) || (n =? 1) then UOk (inr (-3)) else
+    ulet host <- uri_copy (tl p) (n - 1) ;;
+    UOk (inl (tl q, len1 - 1, host, dport, false))
+  else
+    ulet unix <- (if 3 <=? len then
+                    ulet a <- uri_rd p 0 ;;
+                    if a =? 37 then
+                      ulet b <- uri_rd p 1 ;;
+                      if b =? 50 then
+                        ulet c <- uri_rd p 2 ;; UOk ((c =? 70) || (c =? 102))
+                      else UOk false
+                    else UOk false
+                  else UOk false) ;;
+    ulet r <- uri_scan uri_is_host_end p len 0 ;;
+    let '(q, len1, n) := r in
+    if n =? 0 then UOk (inr (-3)) else
+    ulet host <- uri_copy p n ;;
+    UOk (inl (q, len1, host, (if (unix : bool) then 0 else dport), unix)).
+
+(* the optional ":port", then the rest *)
+Definition uri_port_stage (q : bytes) (len1 : Z) (sch : Z) (host : bytes) (port0 : Z) (unix : bool)
+  : uri_res uri_sres :=
+  ulet colon <- (if len1 =? 0 then UOk false else ulet c <- uri_rd q 0 ;; UOk (c =? 58)) ;;
+  if (colon : bool) then
+    if unix then UOk (UErr (-5)) else
+    let p := tl q in
+    ulet r <- uri_scan (fun c => negb (uri_isdigit c)) p (len1 - 1) 0 ;;
+    let '(q2, len2, nd) := r in
+    if 0 <? nd then
+      ulet ds <- uri_copy p nd ;;
+      let v := uri_port_acc ds 0 in
+      if 65535 <? v then UOk (UErr (-4))
+      else uri_split_tail q2 len2 sch host v
+    else uri_split_tail q2 len2 sch host port0
+  else uri_split_tail q len1 sch host port0.
+
 Definition uri_split_sub (caps : uri_caps) (proxy : bool) (s : bytes) (len0 : Z)
   : uri_res uri_sres :=
   if len0 =? 0 then UOk (UErr (-1)) else
@@ -117,48 +161,10 @@ Definition uri_split_sub (caps : uri_caps) (proxy : bool) (s : bytes) (len0 : Z)
   | Some (dport, ponly, sch) =>
       if negb proxy && ponly then UOk (UErr (-1)) else
       if negb (uri_cap_ok caps sch) then UOk (UErr (-1)) else
-      let p := drop 3 p in
-      let len := len - 3 in
-      ulet isv6 <- (if len =? 0 then UOk false else ulet c <- uri_rd p 0 ;; UOk (c =? 91)) ;;
-      ulet hr <-
-        (if (isv6 : bool) then
-           (* q starts at '[' *)
-           ulet r <- uri_scan (fun c => c =? 93) p len 0 ;;
-           let '(q, len1, n) := r in
-           if (len1 =? 0) || (n =? 1) then UOk (inr (-3)) else
-           ulet host <- uri_copy (tl p) (n - 1) ;;
-           UOk (inl (tl q, len1 - 1, host, dport, false))
-         else
-           ulet unix <- (if 3 <=? len then
-                           ulet a <- uri_rd p 0 ;;
-                           if a =? 37 then
-                             ulet b <- uri_rd p 1 ;;
-                             if b =? 50 then
-                               ulet c <- uri_rd p 2 ;; UOk ((c =? 70) || (c =? 102))
-                             else UOk false
-                           else UOk false
-                         else UOk false) ;;
-           ulet r <- uri_scan uri_is_host_end p len 0 ;;
-           let '(q, len1, n) := r in
-           if n =? 0 then UOk (inr (-3)) else
-           ulet host <- uri_copy p n ;;
-           UOk (inl (q, len1, host, (if (unix : bool) then 0 else dport), unix))) ;;
+      ulet hr <- uri_host_stage (drop 3 p) (len - 3) dport ;;
       match hr with
       | inr rc => UOk (UErr rc)
-      | inl (q, len1, host, port0, unix) =>
-          ulet colon <- (if len1 =? 0 then UOk false else ulet c <- uri_rd q 0 ;; UOk (c =? 58)) ;;
-          if (colon : bool) then
-            if (unix : bool) then UOk (UErr (-5)) else
-            let p := tl q in
-            ulet r <- uri_scan (fun c => negb (uri_isdigit c)) p (len1 - 1) 0 ;;
-            let '(q2, len2, nd) := r in
-            if 0 <? nd then
-              ulet ds <- uri_copy p nd ;;
-              let v := uri_port_acc ds 0 in
-              if 65535 <? v then UOk (UErr (-4))
-              else uri_split_tail q2 len2 sch host v
-            else uri_split_tail q2 len2 sch host port0
-          else uri_split_tail q len1 sch host port0
+      | inl (q, len1, host, port0, unix) => uri_port_stage q len1 sch host port0 unix
       end
   end.
 
